@@ -30,6 +30,7 @@ import numpy as np
 from hypothesis import strategies as st
 
 import common
+import gstools as gs
 from common import Sub, Violation, lib, require
 import gens
 from gens import build_model, logfloat
@@ -868,6 +869,65 @@ def _gp(classes):
     return lambda tier: gen_parseval(tier, classes=classes)
 
 
+@st.composite
+def gen_radial_hd(draw, tier="quick"):
+    """Internal dimension 4 and 5 (x, y, z, t models): the general branch of the surface factor."""
+    cls = draw(st.sampled_from(["Gaussian", "Exponential", "Matern", "Integral"]))
+    dim = draw(st.sampled_from([4, 4, 5]))
+    opt = {}
+    if cls == "Matern":
+        opt = {"nu": draw(st.sampled_from([0.5, 1.0, 1.5, 2.75]))}
+    if cls == "Integral":
+        opt = {"nu": draw(st.sampled_from([1.0, 2.5, 4.0]))}
+    return {
+        "cls": cls, "dim": dim, "opt": opt, "temporal": draw(st.booleans()),
+        "len_scale": draw(st.one_of(st.just(1.0), logfloat(0.1, 20.0))), "rescale": draw(st.one_of(st.none(), logfloat(0.5, 3.0))),
+        "var": draw(logfloat(0.2, 5.0)), "kl": sorted(draw(st.lists(logfloat(1e-2, 20.0), min_size=4, max_size=4))),
+    }
+
+
+def check_radial_hd(case, rec):
+    from scipy.integrate import quad
+    from scipy.special import gamma as _gamma
+
+    cls, dim = case["cls"], case["dim"]
+    tags = {"model": cls, "dim": dim, "sub": "radial_high_dim"}
+    rec.label(cls, f"dim{dim}", "temporal" if case["temporal"] else "plain")
+    kw = dict(var=case["var"], len_scale=case["len_scale"], **case["opt"])
+    if case["rescale"] is not None:
+        kw["rescale"] = case["rescale"]
+    if case["temporal"]:
+        kw.update(temporal=True, spatial_dim=dim - 1)
+    else:
+        kw["dim"] = dim
+    with common.quiet():
+        m = lib(getattr(gs, cls), _what="model construction", _tags=tags, **kw)
+    L = float(m.len_rescaled)
+    k = np.array(case["kl"], dtype=float) / L
+    with common.quiet():
+        pdf = np.asarray(lib(m.spectral_rad_pdf, k, _tags=tags), dtype=float)
+        dens = np.asarray(lib(m.spectral_density, k, _tags=tags), dtype=float)
+    surf = 2.0 * math.pi ** (dim / 2.0) / _gamma(dim / 2.0) * k ** (dim - 1)
+    want = surf * np.abs(dens)
+    err = float(np.max(np.abs(pdf - want)))
+    require(err <= 1e-12 * float(np.max(np.abs(want))),
+            f"{cls} d={dim}: spectral_rad_pdf {pdf.tolist()} != surface of the unit sphere in R^{dim} * k^{dim - 1} * |spectral_density| {want.tolist()}",
+            dict(tags, kind="rad_pdf_factor"))
+
+    def f(x):
+        with common.quiet():
+            return float(np.asarray(m.spectral_rad_pdf(np.array([x])))[0])
+
+    tot, e1 = quad(f, 0.0, 8.0 / L, limit=400, points=[1.0 / L, 3.0 / L])
+    tail, e2 = quad(f, 8.0 / L, np.inf, limit=400)
+    mass = tot + tail
+    budget = 1e-6 + 10.0 * (e1 + e2)
+    rec.discrepancy("pdf_mass_high_dim", abs(mass - 1.0), budget)
+    require(abs(mass - 1.0) <= budget, f"{cls} d={dim}: radial spectral pdf integrates to {mass:.9g} (quadrature error {e1 + e2:.2g}), expected 1",
+            dict(tags, kind="pdf_mass"))
+    rec.nontrivial(True)
+
+
 SUBS = [
     Sub(
         "parseval",
@@ -909,5 +969,15 @@ SUBS = [
         shards_quick=4,
         shards_thorough=3,
         doc="spectral_rad_pdf = surface factor * |S|, mass, cdf/ppf, dist_func, has_cdf/has_ppf",
+    ),
+    Sub(
+        "radial_high_dim",
+        gen_radial_hd,
+        check_radial_hd,
+        quick=200,
+        thorough=3000,
+        shards_quick=2,
+        shards_thorough=3,
+        doc="internal dimension 4 / 5 (x, y, z, t models): pdf = surface factor * |S| and total mass 1",
     ),
 ]
